@@ -667,38 +667,42 @@ structure St.equiv (m : Machine) (s s' : St) : Prop where
   ctx : s.ctx = s'.ctx
   raiseDepth : s.raiseDepth = s'.raiseDepth
   errors : s.errors = s'.errors
+  expCut : s.expCut = s'.expCut
 
 namespace St.equiv
 variable {m : Machine} {s s' : St}
 
 theorem refl (m : Machine) (s : St) : St.equiv m s s :=
-  ⟨List.Perm.refl _, rfl, rfl, rfl, TraceEq.refl m _, rfl, rfl, rfl, rfl⟩
+  ⟨List.Perm.refl _, rfl, rfl, rfl, TraceEq.refl m _, rfl, rfl, rfl, rfl, rfl⟩
 
 theorem setErr (h : St.equiv m s s') (e : Option EErr) :
     St.equiv m { s with err := e } { s' with err := e } :=
-  ⟨h.cfg, h.hist, h.queue, h.status, h.trace, rfl, h.ctx, h.raiseDepth, h.errors⟩
+  ⟨h.cfg, h.hist, h.queue, h.status, h.trace, rfl, h.ctx, h.raiseDepth, h.errors, h.expCut⟩
 theorem setCtx (h : St.equiv m s s') (c : Ctx) :
     St.equiv m { s with ctx := c } { s' with ctx := c } :=
-  ⟨h.cfg, h.hist, h.queue, h.status, h.trace, h.err, rfl, h.raiseDepth, h.errors⟩
+  ⟨h.cfg, h.hist, h.queue, h.status, h.trace, h.err, rfl, h.raiseDepth, h.errors, h.expCut⟩
 theorem setCfg (h : St.equiv m s s') {c c' : List Path} (hc : c.Perm c') :
     St.equiv m { s with cfg := c } { s' with cfg := c' } :=
-  ⟨hc, h.hist, h.queue, h.status, h.trace, h.err, h.ctx, h.raiseDepth, h.errors⟩
+  ⟨hc, h.hist, h.queue, h.status, h.trace, h.err, h.ctx, h.raiseDepth, h.errors, h.expCut⟩
 theorem setHist (h : St.equiv m s s') (x : List (Path × List Path)) :
     St.equiv m { s with hist := x } { s' with hist := x } :=
-  ⟨h.cfg, rfl, h.queue, h.status, h.trace, h.err, h.ctx, h.raiseDepth, h.errors⟩
+  ⟨h.cfg, rfl, h.queue, h.status, h.trace, h.err, h.ctx, h.raiseDepth, h.errors, h.expCut⟩
 theorem setStatus (h : St.equiv m s s') (x : String) :
     St.equiv m { s with status := x } { s' with status := x } :=
-  ⟨h.cfg, h.hist, h.queue, rfl, h.trace, h.err, h.ctx, h.raiseDepth, h.errors⟩
+  ⟨h.cfg, h.hist, h.queue, rfl, h.trace, h.err, h.ctx, h.raiseDepth, h.errors, h.expCut⟩
 theorem setQueue (h : St.equiv m s s') (x : List QEv) :
     St.equiv m { s with queue := x } { s' with queue := x } :=
-  ⟨h.cfg, h.hist, rfl, h.status, h.trace, h.err, h.ctx, h.raiseDepth, h.errors⟩
+  ⟨h.cfg, h.hist, rfl, h.status, h.trace, h.err, h.ctx, h.raiseDepth, h.errors, h.expCut⟩
+theorem setExpCut (h : St.equiv m s s') (x : Bool) :
+    St.equiv m { s with expCut := x } { s' with expCut := x } :=
+  ⟨h.cfg, h.hist, h.queue, h.status, h.trace, h.err, h.ctx, h.raiseDepth, h.errors, rfl⟩
 theorem setRaiseDepth (h : St.equiv m s s') (x : Nat) :
     St.equiv m { s with raiseDepth := x } { s' with raiseDepth := x } :=
-  ⟨h.cfg, h.hist, h.queue, h.status, h.trace, h.err, h.ctx, rfl, h.errors⟩
+  ⟨h.cfg, h.hist, h.queue, h.status, h.trace, h.err, h.ctx, rfl, h.errors, h.expCut⟩
 
 theorem emitRec (h : St.equiv m s s') {r r' : String} (hr : RecEq m r r') :
     St.equiv m (emit r s) (emit r' s') :=
-  ⟨h.cfg, h.hist, h.queue, h.status, TraceEq.cons hr h.trace, h.err, h.ctx, h.raiseDepth, h.errors⟩
+  ⟨h.cfg, h.hist, h.queue, h.status, TraceEq.cons hr h.trace, h.err, h.ctx, h.raiseDepth, h.errors, h.expCut⟩
 theorem emit (h : St.equiv m s s') (r : String) : St.equiv m (XSM.emit r s) (XSM.emit r s') :=
   h.emitRec (Or.inl rfl)
 
@@ -787,7 +791,16 @@ theorem assignStep_equiv {m : Machine} {s s' : St} (he : St.equiv m s s') (canon
     (a : ActionRef) : St.equiv m (assignStep canon cut a s) (assignStep canon cut a s') := by
   unfold assignStep
   split
-  · rw [← he.ctx]; exact he.setCtx _
+  · exact he.setExpCut _
+  · split
+    · rw [← he.ctx]; exact he.setCtx _
+    · exact he
+
+theorem endExpansion_equiv {m : Machine} {s s' : St} (he : St.equiv m s s') (f : Nat) :
+    St.equiv m (endExpansion f s) (endExpansion f s') := by
+  unfold endExpansion
+  split
+  · exact he.setExpCut _
   · exact he
 
 theorem finishBuiltin_equiv {m : Machine} {h : Hooks} (hh : HooksPerm m h) {s s' : St} (he : St.equiv m s s')
@@ -809,7 +822,7 @@ theorem builtinStep_equiv {m : Machine} {h : Hooks} (hh : HooksPerm m h)
     AccEq m (builtinStep h nested cut evType canon a s) (builtinStep h nested cut evType canon a s') := by
   unfold builtinStep
   simp only
-  rw [← pickBranch_perm hh he evType]
+  rw [← pickBranch_perm hh he evType, ← he.expCut]
   split
   · exact ⟨he.emit _, rfl⟩
   · apply finishBuiltin_equiv hh
@@ -862,7 +875,7 @@ theorem execActionsF_equiv {m : Machine} {h : Hooks} (hh : HooksPerm m h) :
   | succ f ih =>
     intro as evType s s' he
     unfold execActionsF
-    exact (foldl_actStep_equiv hh _ ih false evType as (acc := (s, false)) (acc' := (s', false)) ⟨he, rfl⟩).1
+    exact (foldl_actStep_equiv hh _ (fun fs ev s s' h => endExpansion_equiv (ih fs ev s s' h) _) false evType as (acc := (s, false)) (acc' := (s', false)) ⟨he, rfl⟩).1
 
 /-- **actions**: running an action list on equivalent states gives equivalent states -/
 theorem execActions_equiv {m : Machine} {h : Hooks} (hh : HooksPerm m h) (as : List ActionRef)
